@@ -39,6 +39,8 @@ m = {
         'add_only': True,
     },
     'engines': [
+        {'name': 'native', 'path': 'harness/qe-native + vlib/native.py', 'serves_properties': sorted(k for k, v in registry.CHECKS.items() if v['engine'] == registry.E2),
+         'kind_free_text': 'rust-native exhaustive enumerators calling the real functions/objects, one subcommand per property'},
         {'name': 'sqldiff', 'path': 'vlib/sqldiff.py + harness/qe-driver', 'serves_properties': sorted(k for k, v in registry.CHECKS.items() if v['engine'] == registry.E1),
          'kind_free_text': 'bounded-exhaustive statement x database enumeration executed on the real engine in a subprocess, compared with SQLite / python reference'},
     ],
